@@ -327,6 +327,9 @@ pub struct RingCase {
     pub rc: usize,
     pub ac: usize,
     pub val: Val,
+    /// merge_rings only: part i holds a_s - (i % 2) limbs (at least 1) instead of a_s (the missing limbs count as zero)
+    #[serde(default)]
+    pub uneven: bool,
 }
 
 pub fn exec_ring<B: Bk>(c: &RingCase, seed: u64, rec: &mut Rec)
@@ -407,9 +410,10 @@ where
                     }
                 }
             } else {
+                let part_size = |i: usize| if c.uneven { (c.a_s - (i % 2)).max(1) } else { c.a_s };
                 let mut parts_v: Vec<VecZnx<Vec<u8>>> = (0..parts)
                     .map(|i| {
-                        let mut v = VecZnx::alloc(c.n_small, c.cols, c.a_s);
+                        let mut v = VecZnx::alloc(c.n_small, c.cols, part_size(i));
                         fill_vec(&mut v, 10 + i as u64, c.val, &mut rng);
                         v
                     })
@@ -424,7 +428,8 @@ where
                 }
                 for j in 0..c.rs {
                     let want = if j < c.a_s {
-                        let ps: Vec<Vec<i64>> = parts_v.iter().map(|p| p.at(c.ac, j).to_vec()).collect();
+                        let ps: Vec<Vec<i64>> =
+                            parts_v.iter().enumerate().map(|(i, p)| if j < part_size(i) { p.at(c.ac, j).to_vec() } else { zeros(c.n_small) }).collect();
                         ring::merge_rings(&ps)
                     } else {
                         zeros(c.n_big)
@@ -473,6 +478,7 @@ fn ring_cases<B: Bk>(tier: Tier) -> Vec<RingCase> {
                                                 rc,
                                                 ac,
                                                 val,
+                                                uneven: false,
                                             });
                                         }
                                     }
@@ -500,10 +506,21 @@ fn ring_cases<B: Bk>(tier: Tier) -> Vec<RingCase> {
                     rc: 1,
                     ac: 0,
                     val: Val::Tag,
+                    uneven: false,
                 });
             }
         }
     }
+    // merge of parts with unequal limb counts
+    let mut extra = vec![];
+    for c in out.iter() {
+        if c.op == "merge_rings" && c.a_s >= 2 && c.val == Val::Tag {
+            let mut d = c.clone();
+            d.uneven = true;
+            extra.push(d);
+        }
+    }
+    out.extend(extra);
     out
 }
 
